@@ -65,4 +65,14 @@ Definition holds_c08 (input output : val) : val :=
   if Z.eqb rep 9 then B (str "request-not-answered")
   else if cachedb && Z.eqb rep 1 then B (str "client-saw-UNPREPARED-although-the-statement-is-cached")
   else if cachedb && existsb (fun h => memN h okhosts) plan && negb (Z.eqb rep 0) then B (str "execute-failed-although-a-host-could-serve-it")
-  else B [].
+  else
+    (* "succeeds on whichever host the proxy picks": the rows must come from the FIRST host of the plan that knows the
+       statement or accepts the re-PREPARE (when every host of the plan recognises the UNPREPARED answer) *)
+    let recognised_all := forallb (fun h => memN h (map vN (vL (nthv 1 input)))) plan in
+    match find (fun h => memN h okhosts) plan with
+    | Some h =>
+        if cachedb && recognised_all && Z.eqb rep 0 && negb (N.eqb (vN (nthv 1 (nthv 1 output))) h)
+        then B (str "statement-not-re-prepared-on-the-host-the-proxy-picked-(the-request-went-on-to-another-host)")
+        else B []
+    | None => B []
+    end.
